@@ -30,5 +30,5 @@ def obligations(tier):
            'values per wrapped line, cell vocabulary incl. unparseable tokens',
            fns, harness='C09_las', func='las_layouts_q' if q else 'las_layouts', timeout=280 if q else 2400, parts=16),
         Ob('section_line_fields', 'ch', 'mnemonic and unit of 1..2 characters over {A,z,0,_} (unit possibly empty), 10 value spellings, 0..2 spaces around the delimiters',
-           ['LASRead.line_to_sect_line', 'LASRead.string_to_value', 'LASRead.RE_LINE_FIELD_0/RE_LINE_FIELD_1'], harness='C09_las', func='sect_line_chars', timeout=280 if q else 900, parts=30),
+           ['LASRead.line_to_sect_line', 'LASRead.string_to_value', 'LASRead.RE_LINE_FIELD_0/RE_LINE_FIELD_1'], harness='C09_las', func='sect_line_chars', timeout=280 if q else 900, parts=36),
     ]
